@@ -82,3 +82,128 @@ Qed.
 Lemma send_req_up n id q :
   can_send n (pq_ctx q) = true -> send_req n id q = (n, [OSend (pq_ctx q) (MSubReq id (pq_pub q) (pq_sig q) (pq_sub q))]).
 Proof. intro H. unfold send_req. rewrite H. reflexivity. Qed.
+
+Lemma can_send_same n n' c : same_side n n' -> can_send n' c = can_send n c.
+Proof. intros (_ & H & _). unfold can_send. rewrite H. reflexivity. Qed.
+
+Lemma same_side_trans a b c : same_side a b -> same_side b c -> same_side a c.
+Proof. unfold same_side. intuition congruence. Qed.
+
+Lemma frame_at_trans k a b c : frame_at k a b -> frame_at k b c -> frame_at k a c.
+Proof.
+  intros H1 H2 key Hk. destruct (H1 key Hk) as [A1 A2]. destruct (H2 key Hk) as [B1 B2]. split; congruence.
+Qed.
+
+Lemma handle_reply_spec n id ok key q :
+  TInv n -> nlk id (n_pid n) = Some key -> slk key (n_pname n) = Some q ->
+  let r := handle_reply n id ok in
+  same_side n (fst r) /\ frame_at key n (fst r) /\
+  nlk id (n_pid (fst r)) = None /\
+  (if pq_sub q then
+     snd r = [] /\ slk key (n_pname (fst r)) = None /\
+     (forall id', id' <> id -> nlk id' (n_pid (fst r)) = nlk id' (n_pid n)) /\
+     slk key (n_lsubs (fst r)) = (if ok then Some (pq_recv q) else None)
+   else if is_nil (pq_recv q) then
+     snd r = [] /\ slk key (n_pname (fst r)) = None /\
+     (forall id', id' <> id -> nlk id' (n_pid (fst r)) = nlk id' (n_pid n)) /\
+     slk key (n_lsubs (fst r)) = None
+   else if can_send n (pq_ctx q) then
+     let q' := mkPreq (pq_ctx q) (pq_pub q) (pq_sig q) true (pq_recv q) (pq_wait q) in
+     snd r = [OSend (pq_ctx q) (MSubReq (n_next n) (pq_pub q) (pq_sig q) true)] /\
+     slk key (n_pname (fst r)) = Some q' /\
+     nlk (n_next n) (n_pid (fst r)) = Some key /\
+     (forall id', id' <> id -> id' <> n_next n -> nlk id' (n_pid (fst r)) = nlk id' (n_pid n)) /\
+     slk key (n_lsubs (fst r)) = None
+   else
+     snd r = [] /\ slk key (n_pname (fst r)) = None /\
+     nlk (n_next n) (n_pid (fst r)) = None /\
+     (forall id', id' <> id -> id' <> n_next n -> nlk id' (n_pid (fst r)) = nlk id' (n_pid n)) /\
+     slk key (n_lsubs (fst r)) = None).
+Proof.
+  intros HT Eid Eq. unfold handle_reply.
+  pose proof (complete_spec n id ok key q HT Eid Eq) as Hs. cbv zeta in Hs.
+  pose proof (complete_TInv n id ok HT) as HT1.
+  destruct (complete n id ok) as [n1 r1]. simpl in Hs, HT1. destruct Hs as (S1 & S2 & S3 & S4).
+  destruct (pq_sub q) eqn:Esub.
+  - destruct S4 as (-> & S5 & S6 & S7). simpl. auto 10.
+  - destruct (is_nil (pq_recv q)) eqn:En.
+    + destruct S4 as (-> & S5 & S6 & S7). simpl. auto 10.
+    + cbv zeta in S4. destruct S4 as (-> & S5 & S6 & S7 & S8).
+      set (q' := mkPreq (pq_ctx q) (pq_pub q) (pq_sig q) true (pq_recv q) (pq_wait q)) in *.
+      destruct (can_send n (pq_ctx q)) eqn:Ec.
+      * rewrite send_req_up by (rewrite (can_send_same n n1 _ S1); exact Ec). simpl. auto 10.
+      * assert (Ec1 : can_send n1 (pq_ctx q') = false) by (rewrite (can_send_same n n1 _ S1); exact Ec).
+        pose proof (send_req_down n1 (n_next n) q' key HT1 Ec1 S6 S5) as Hd. cbv zeta in Hd.
+        destruct (send_req n1 (n_next n) q') as [n2 o2]. simpl in Hd.
+        destruct Hd as (-> & T1 & T2 & T3 & T4 & T5 & T6); [discriminate|]. simpl.
+        assert (Hne : id <> n_next n).
+        { destruct HT as (_ & (_ & _ & _ & P4) & _). specialize (P4 _ _ Eid). lia. }
+        split; [eapply same_side_trans; eauto|]. split; [eapply frame_at_trans; eauto|].
+        split; [rewrite T5 by exact Hne; exact S3|]. split; [reflexivity|]. split; [exact T3|]. split; [exact T4|].
+        split; [intros id' Hn1 Hn2; rewrite T5 by exact Hn2; apply S7; assumption | exact T6].
+Qed.
+
+(* ---- subscribe to a remote signal ---- *)
+Lemma sub_remote_spec n call c p0 s0 r :
+  TInv n -> names_ok c p0 s0 = true -> c <> n_name n ->
+  let key0 := key3 c p0 s0 in
+  let res := sub_remote n call c p0 s0 r in
+  same_side n (fst res) /\ frame_at key0 n (fst res) /\
+  match slk key0 (n_lsubs n) with
+  | Some l =>
+      slk key0 (n_lsubs (fst res)) = Some (sadd N.eqb r l) /\ slk key0 (n_pname (fst res)) = None /\
+      slk key0 (n_pname n) = None /\ same_pid n (fst res) /\ snd res = [ORes RNone]
+  | None =>
+      slk key0 (n_lsubs (fst res)) = None /\
+      match slk key0 (n_pname n) with
+      | Some q =>
+          (exists q', slk key0 (n_pname (fst res)) = Some q' /\ pq_sub q' = pq_sub q /\ pq_ctx q' = pq_ctx q) /\
+          same_pid n (fst res) /\ snd res = [ORes RWait]
+      | None =>
+          if can_send n c then
+            slk key0 (n_pname (fst res)) = Some (mkPreq c p0 s0 true [r] [call]) /\
+            nlk (n_next n) (n_pid (fst res)) = Some key0 /\
+            (forall id', id' <> n_next n -> nlk id' (n_pid (fst res)) = nlk id' (n_pid n)) /\
+            snd res = [OSend c (MSubReq (n_next n) p0 s0 true); ORes RWait]
+          else
+            slk key0 (n_pname (fst res)) = None /\ same_pid n (fst res) /\ snd res = [ORes RWait]
+      end
+  end.
+Proof.
+  intros HT Hok Hc key0 res. subst res key0. pose proof HT as (H0 & HPC & HPV & HNE & HNR & HEX). unfold sub_remote.
+  assert (Hside : forall m, n_rsubs m = n_rsubs n -> n_peers m = n_peers n -> n_name m = n_name n -> n_objs m = n_objs n -> same_side n m)
+    by (intros m A B C D; unfold same_side; auto).
+  destruct (slk (key3 c p0 s0) (n_lsubs n)) as [[|x l]|] eqn:El.
+  - exfalso. exact (NE_lookup _ _ _ HNE El eq_refl).
+  - simpl. split; [apply Hside; reflexivity|].
+    split; [intros k Hk; simpl; rewrite slk_aset_other by exact Hk; auto|].
+    split; [apply slk_aset_same|]. split; [eapply HEX; eauto|]. split; [eapply HEX; eauto|]. split; [intro; reflexivity | reflexivity].
+  - destruct (slk (key3 c p0 s0) (n_pname n)) as [q|] eqn:Eq.
+    + simpl. split; [apply Hside; reflexivity|].
+      split; [intros k Hk; simpl; rewrite slk_aset_other by exact Hk; auto|].
+      split; [exact El|]. split; [eexists; split; [apply slk_aset_same | simpl; auto]|]. split; [intro; reflexivity | reflexivity].
+    + pose proof (new_request_TInv n c p0 s0 true [r] [call] HT Hok Hc Eq El) as Hn.
+      unfold new_request in *. cbv beta iota zeta in *. simpl in Hn.
+      set (n1 := w_pid (aset N.eqb (n_next n) (key3 c p0 s0) (n_pid n))
+                  (w_pname (aset str_eqb (key3 c p0 s0) (mkPreq c p0 s0 true [r] [call]) (n_pname n)) (w_next (n_next n + 1) n))) in *.
+      assert (HT1 : TInv n1) by (apply Hn; intros _; discriminate).
+      assert (Hfr : frame_at (key3 c p0 s0) n n1) by (intros k Hk; simpl; rewrite slk_aset_other by exact Hk; auto).
+      assert (Hnofresh : nlk (n_next n) (n_pid n) = None).
+      { destruct (nlk (n_next n) (n_pid n)) eqn:E; [|reflexivity]. destruct HPC as (_ & _ & _ & P4). specialize (P4 _ _ E). lia. }
+      destruct (can_send n c) eqn:Ec.
+      * rewrite send_req_up by exact Ec. simpl.
+        split; [apply Hside; reflexivity|]. split; [exact Hfr|]. split; [exact El|].
+        split; [apply slk_aset_same|]. split; [apply nlk_aset_same|].
+        split; [intros id' Hn'; apply nlk_aset_other; exact Hn' | reflexivity].
+      * assert (Eid1 : nlk (n_next n) (n_pid n1) = Some (key3 c p0 s0)) by apply nlk_aset_same.
+        assert (Eq1 : slk (key3 c p0 s0) (n_pname n1) = Some (mkPreq c p0 s0 true [r] [call])) by apply slk_aset_same.
+        assert (Ec1 : can_send n1 (pq_ctx (mkPreq c p0 s0 true [r] [call])) = false) by exact Ec.
+        pose proof (send_req_down n1 (n_next n) (mkPreq c p0 s0 true [r] [call]) (key3 c p0 s0) HT1 Ec1 Eid1 Eq1) as Hd. cbv zeta in Hd.
+        destruct (send_req n1 (n_next n) (mkPreq c p0 s0 true [r] [call])) as [n2 o2]. simpl in Hd.
+        destruct Hd as (-> & T1 & T2 & T3 & T4 & T5 & T6); [discriminate|]. simpl.
+        split; [apply (same_side_trans n n1 n2); [apply Hside; reflexivity | exact T1]|].
+        split; [apply (frame_at_trans _ n n1 n2); assumption|]. split; [exact T6|]. split; [exact T3|].
+        split; [|reflexivity].
+        intro id'. destruct (N.eq_dec id' (n_next n)) as [->|Hne]; [rewrite T4, Hnofresh; reflexivity|].
+        rewrite T5 by exact Hne. apply nlk_aset_other. exact Hne.
+Qed.
